@@ -20,6 +20,7 @@ func init() {
 	rt.Register("C08_String", C08_String)
 	rt.Register("C08_Char", C08_Char)
 	rt.Register("C08_QuotedSkeleton", C08_QuotedSkeleton)
+	rt.Register("C08_StringLong", C08_StringLong)
 	rt.Register("C08_NumberSkeleton", C08_NumberSkeleton)
 	rt.Register("C08_Words", C08_Words)
 	rt.Register("C08_Regexp", C08_Regexp)
@@ -616,4 +617,31 @@ func C08_QuotedSkeleton() {
 	} else {
 		checkChar(e)
 	}
+}
+
+// C08_StringLong: a double-quoted literal of W bytes, concrete ASCII except
+// for three free bytes: two adjacent ones in the middle and one before the closing
+// quote (an escape, a quote, a multi-byte sequence can begin there).
+func C08_StringLong() {
+	w := rt.Param("W", 100)
+	d := []byte{'"'}
+	for i := 0; i < w; i++ {
+		switch {
+		case i == w/2 || i == w/2+1 || i == w-2:
+			d = append(d, rt.Byte("in"))
+		case i%11 == 5:
+			d = append(d, '\\', 'n')
+		case i%13 == 7:
+			d = append(d, 0xC3, 0xA9) // e-acute
+		default:
+			d = append(d, 'a'+byte(i%26))
+		}
+	}
+	d = append(d, '"')
+	for i := 1; i < len(d); i++ {
+		rt.Assume(!(d[i-1] == '\r' && d[i] == '\n'))
+	}
+	rt.Cover("literal of more than 64 bytes")
+	e := mkEnv(d, 0)
+	checkString(e, false)
 }
